@@ -52,13 +52,6 @@ theorem cbArg_index (t : Schema) (i : Nat) : (t.cbArg i).index = i := by cases t
 theorem totalBits_cons (f : BitVec 64 × BitVec 64) (fs : List (BitVec 64 × BitVec 64)) :
     totalBits (f :: fs) = f.1.toNat + totalBits fs := by simp [totalBits]
 
-theorem kid_facts (s c : Schema) (i : Nat) (hk : s.kids[i]? = some c) : s.isLeaf = false ∧ i < s.arity := by
-  refine ⟨?_, ?_⟩
-  · cases hl : s.isLeaf with
-    | false => rfl
-    | true => rw [kids_none_of_leaf s hl] at hk; cases hk
-  · unfold Schema.arity; exact (List.getElem?_eq_some_iff.mp hk).1
-
 /-- **Encoding**: along a valid node path whose fields fit, the packed target's callbacks
 succeed without panic and produce `pushAll` of the fields -/
 theorem cbAlong_packed : ∀ (p : List Nat) (s t : Schema) (l c : BitVec 64), s.WF → s.Small → s.at? p = some t →
